@@ -3,6 +3,7 @@ package rag
 import (
 	"fmt"
 	"strings"
+	"unicode/utf8"
 )
 
 // SizeUnit defines the unit of measurement for chunk sizes
@@ -496,7 +497,21 @@ func findWordBoundaryNear(text string, targetPos int) int {
 		}
 	}
 
-	return targetPos
+	// No whitespace nearby (e.g. CJK text): split at the target, but never inside a
+	// multi-byte UTF-8 sequence. Prefer the start of the character that contains the
+	// target; if that is the beginning of the text, split after that character so
+	// the caller still makes progress.
+	pos := targetPos
+	for pos > 0 && !utf8.RuneStart(text[pos]) {
+		pos--
+	}
+	if pos == 0 {
+		pos = targetPos
+		for pos < len(text) && !utf8.RuneStart(text[pos]) {
+			pos++
+		}
+	}
+	return pos
 }
 
 // isSentenceEndChar checks if a character typically ends a sentence
